@@ -11,7 +11,9 @@ import os, re, subprocess
 
 PKG = "github.com/JesseCoretta/go-stackage."
 # exported-wrapper reads that happen before lock() (DESIGN §9 row 24)
-UNLOCKED_READERS = {"Stack.IsInit", "Stack.getState", "Stack.IsEmpty", "Stack.Len", "Stack.IsZero"}
+# (Stack.SetMutex on an instance whose mutex exists already only *reads* the configuration slot, without the lock, like the others:
+#  the stress run asks for the mutex again while the goroutines are running; a *write* made there is not in this class)
+UNLOCKED_READERS = {"Stack.IsInit", "Stack.getState", "Stack.IsEmpty", "Stack.Len", "Stack.IsZero", "Stack.SetMutex"}
 # private functions whose bodies run under the lock
 LOCKED_WRITERS = {"(*stack).push", "(*stack).genericAppend", "(*stack).methodAppend", "(*stack).pop", "(*stack).insert", "(*stack).remove",
                   "(*stack).replace", "(*stack).swap", "(*stack).reverse", "(*stack).reset", "(*stack).lock", "(*stack).unlock"}
